@@ -128,6 +128,21 @@ def check_one(arg):
         if bad:
             fails.append(("sentinel_line_is_directive_node:" + rep["form"],
                           "handling disabled, process_directives: sentinel lines became Directive nodes: %r" % bad[:3], rep))
+    # handling enabled TOGETHER WITH directive processing (comments kept): the two options are independent -- the hidden
+    # statements are statements, no sentinel line is left behind as a Comment or Directive node
+    both = fp.parse(src, std=std, rd=fp.reader(src, ignore_comments=False, free=not fixed, process_directives=True,
+                                               include_omp_conditional_lines=True))
+    if both.kind != "tree":
+        fails.append(("enabled_with_directives_rejected:" + rep["form"],
+                      "handling enabled + process_directives: %s line %s" % (both.kind, both.line), dict(rep, options="omp+directives")))
+    else:
+        left = [t for _, t in fp.comment_nodes(both.tree) if re.match(r"^[!cC*]\$(\s|&|\d)", t)]
+        left += [str(n) for n in fp.utils.walk(both.tree, fp.F3.Directive) if re.match(r"^[!cC*]\$(\s|&|\d)", str(n))]
+        nst = lambda t: sum(1 for n in fp.utils.walk(t) if isinstance(n, fp.utils.StmtBase))   # noqa
+        if left or nst(both.tree) != nst(refP.tree):
+            fails.append(("enabled_with_directives_differs:" + rep["form"],
+                          "handling enabled + process_directives: %d statements (expected %d), sentinel lines left as "
+                          "comment/directive nodes: %r" % (nst(both.tree), nst(refP.tree), left[:3]), dict(rep, options="omp+directives")))
     if not fixed:
         # genuine directives stay comments when handling is enabled and comments are kept
         k = fp.parse(src, std=std, rd=fp.reader(src, ignore_comments=False, free=True,
@@ -138,6 +153,40 @@ def check_one(arg):
             if want != got:
                 fails.append(("omp_directive_not_comment", "%d '!$omp' lines, %d comment nodes" % (want, got), rep))
     return fails
+
+
+# the hidden statement is the FIRST statement of the file (no PROGRAM statement / a unit opener / after comments only)
+FIRST_HIDDEN = [
+    ("!$ x = 1\ny = 2\nend\n", "   x = 1\ny = 2\nend\n"),
+    ("! note\n\n!$ x = 1\ny = 2\nend\n", "! note\n\n   x = 1\ny = 2\nend\n"),
+    ("!$ x = 1\nend\n", "   x = 1\nend\n"),
+    ("!$ integer :: x\n!$ x = 1\nend program\n", "   integer :: x\n   x = 1\nend program\n"),
+    ("!$ x = 1 + &\n!$ & 2\ny = 2\nend\n", "   x = 1 + &\n   & 2\ny = 2\nend\n"),
+    ("!$ subroutine s()\n!$ end subroutine s\nsubroutine t()\nend subroutine t\n",
+     "   subroutine s()\n   end subroutine s\nsubroutine t()\nend subroutine t\n"),
+    ("!$ program p\nx = 1\n!$ end program p\n", "   program p\nx = 1\n   end program p\n"),
+    ("  !$ x = 1\nend\n", "     x = 1\nend\n"),
+]
+
+
+def check_first_hidden(arg):
+    k, std = arg
+    import fp
+    src, plain = FIRST_HIDDEN[k]
+    rep = dict(std=std, source=src, first_hidden=k, form="free")
+    ref = fp.parse(plain, std=std, ignore_comments=True)
+    if ref.kind != "tree":
+        return []
+    try:
+        on = pool.with_timeout(lambda a: fp.parse(a, std=std, rd=fp.reader(a, ignore_comments=True, free=True,
+                                                                            include_omp_conditional_lines=True)), src, 20)
+    except pool.Timeout:
+        return [("enabled_first_statement_hidden_no_result", "no result within 20 s (handling enabled)", rep)]
+    if on.kind != "tree":
+        return [("enabled_rejected:first_hidden", "with handling enabled: %s line %s" % (on.kind, on.line), rep)]
+    if fp.canon_repr(on.tree) != fp.canon_repr(ref.tree):
+        return [("enabled_tree_differs:first_hidden", "tree(sentinel source, enabled) != tree(blanked source)", rep)]
+    return []
 
 
 def run(ctx):
@@ -163,8 +212,15 @@ def run(ctx):
             failures.append(("harness_error", r[:300], dict(job=job)))
         else:
             failures += [(s, d, dict(rep, job=list(job))) for s, d, rep in r]
-    e2e = dict(cases=len(jobs), distinct=len(set(jobs)), failures=failures,
-               rule="generated programs, random subsets S of whole simple statements hidden behind the conditional "
+    fjobs = [(k, std) for k in range(len(FIRST_HIDDEN)) for std in ("f2003", "f2008")]
+    for job, (st, r) in zip(fjobs, pool.pmap(check_first_hidden, fjobs, chunksize=2)):
+        if st != "ok":
+            failures.append(("harness_error", r[:300], dict(job=job)))
+        else:
+            failures += r
+    e2e = dict(cases=len(jobs) + len(fjobs), distinct=len(set(jobs)) + len(fjobs), failures=failures,
+               rule="8 sources whose FIRST statement is hidden (no PROGRAM statement, unit openers, after comments; 20 s alarm); "
+                    "handling enabled together with process_directives; generated programs, random subsets S of whole simple statements hidden behind the conditional "
                     "sentinel (free: '!$ ' with '!$ &' / '!$&' continuation and comment lines between; fixed: !$ c$ C$ "
                     "*$ in columns 1-2, labels in 3-5, continuation marks) plus genuine '!$omp' lines: "
                     "tree(enabled) == tree(P), tree(disabled, comments ignored) == tree(P minus S), '!$omp' stays a comment",
@@ -176,4 +232,6 @@ def run(ctx):
 
 
 def replay(ctx, data):
+    if "first_hidden" in data:
+        return not check_first_hidden((data["first_hidden"], data.get("std", "f2003")))
     return not check_one(tuple(data["job"]))
